@@ -101,6 +101,9 @@ class CenterManifold(_HitenBase):
         self._point = state["_point"]
         self._max_degree = state["_max_degree"]
         self._setup_services(_CenterManifoldServices.default(self))
+        # Rebuild the Hamiltonian system lazily: the pickled copy holds plain lists
+        # that the compiled map kernels reject
+        self.dynamics._hamsys = None
 
     @classmethod
     def load(cls, dir_path: str, **kwargs) -> "CenterManifold":
